@@ -3,3 +3,10 @@ import QV.Prelude
 import QV.Generated.Consts
 import QV.Generated.Tables
 import QV.Properties.C14
+import QV.Properties.C15
+import QV.Generated.Validation
+import QV.Properties.C06
+import QV.Properties.C20
+import QV.Properties.C21
+import QV.Properties.C22
+import QV.Properties.C17
